@@ -430,7 +430,8 @@ func verifDumpWith(e Expression, fold bool) string {
 	case *ContextReference:
 		return "(ref " + lower(t.Name) + ")"
 	case *DotLookup:
-		return "(dot " + verifDump(t.Container) + " " + lower(t.Lookup) + ")"
+		// (the key of a lookup is matched exactly before case-insensitively, so its case is part of the meaning)
+		return "(dot " + verifDump(t.Container) + " " + t.Lookup + ")"
 	case *ArrayLookup:
 		return "(idx " + verifDump(t.Container) + " " + verifDump(t.Lookup) + ")"
 	case *FunctionCall:
